@@ -73,7 +73,11 @@ WReqs ==
   { Q("writef", 1, "sym", 0, 4, off, "INT", vs, <<>>) : off \in {0, 4}, vs \in { << <<1, 0>> >>, << <<1, 0>>, <<2, 0>> >> } } \cup
   { Q("gas", t, "cia", 0 - 1, 0, 0, "INT", <<>>, <<>>) : t \in {1, 2} } \cup
   { Q("sas", 1, "cia", 0 - 1, 0, 0, "INT", <<>>, bs) : bs \in { <<1, 0, 2, 0, 3, 0, 4, 0>>, <<1, 0>> } } \cup
-  { Q("read", 0, "sym", 0 - 1, 1, 0, "INT", <<>>, <<>>) }
+  { Q("read", 0, "sym", 0 - 1, 1, 0, "INT", <<>>, <<>>) } \cup
+  \* Get Attribute List (1..4 attribute numbers at their width boundaries, present and absent ones) and Get Attributes All
+  { [Q("gal", t, "cia", 0 - 1, 0, 0, "INT", <<>>, <<>>) EXCEPT !.svc = "gal"] @@ [attrs |-> as] :
+       t \in {1, 3}, as \in { <<1>>, <<2, 1>>, <<300>>, <<1, 99, 2>>, <<65535, 256, 255, 1>> } } \cup
+  { Q("gaa", t, "cia", 0 - 1, 0, 0, "INT", <<>>, <<>>) : t \in {1, 3} }
 WTypeOf(r) == IF r.svc \in {"write", "writef"} THEN r.typ ELSE "INT"
 EncOutW(C, r, o) ==
   LET svc == SvcCode(r) IN
